@@ -823,9 +823,7 @@ func (in *Interp) loadSymElem(p *SymElemPtr) Value {
 		}
 	}
 	if kind == 0 {
-		// non-scalar elements: concretise the index
-		i := in.concretize(p.Idx, 0, int64(n))
-		return load(&p.Arr[i])
+		return in.loadSymElemGrouped(p)
 	}
 	if kind == 1 && w == 0 {
 		w = p.elemWidth()
@@ -866,6 +864,114 @@ func (in *Interp) loadSymElem(p *SymElemPtr) Value {
 }
 
 func (p *SymElemPtr) elemWidth() int { return p.w }
+
+// sameRef: two cells hold indistinguishable reference-like values (used to fork once per distinct table entry).
+func sameRef(a, b Value) bool {
+	switch x := a.(type) {
+	case []Value:
+		y, ok := b.([]Value)
+		if !ok || len(x) != len(y) || (x == nil) != (y == nil) {
+			return false
+		}
+		return len(x) == 0 || &x[0] == &y[0]
+	case *Value:
+		y, ok := b.(*Value)
+		return ok && x == y
+	case *Map:
+		y, ok := b.(*Map)
+		return ok && x == y
+	case int64:
+		y, ok := b.(int64)
+		return ok && x == y
+	case bool:
+		y, ok := b.(bool)
+		return ok && x == y
+	case string:
+		y, ok := b.(string)
+		return ok && x == y
+	case Iface:
+		y, ok := b.(Iface)
+		if !ok {
+			return false
+		}
+		if x.T == nil || y.T == nil {
+			return x.T == nil && y.T == nil
+		}
+		return types.Identical(x.T, y.T) && sameRef(x.V, y.V)
+	case Struct:
+		y, ok := b.(Struct)
+		if !ok || len(x) != len(y) {
+			return false
+		}
+		for i := range x {
+			if !sameRef(x[i], y[i]) {
+				return false
+			}
+		}
+		return true
+	}
+	return false
+}
+
+// loadSymElemGrouped loads a[i] for symbolic i over non-scalar cells by forking once per distinct value.
+func (in *Interp) loadSymElemGrouped(p *SymElemPtr) Value {
+	n := len(p.Arr)
+	type group struct {
+		rep  int
+		idxs []int
+	}
+	var groups []*group
+	for i := 0; i < n; i++ {
+		placed := false
+		for _, g := range groups {
+			if sameRef(p.Arr[g.rep], p.Arr[i]) {
+				g.idxs = append(g.idxs, i)
+				placed = true
+				break
+			}
+		}
+		if !placed {
+			groups = append(groups, &group{rep: i, idxs: []int{i}})
+		}
+	}
+	if len(groups) > in.path.ConcLimit {
+		i := in.concretize(p.Idx, 0, int64(n))
+		return load(&p.Arr[i])
+	}
+	st := in.st
+	// smallest groups first: the big default group (e.g. nil entries) needs no membership term
+	for a := 1; a < len(groups); a++ {
+		for b := a; b > 0 && len(groups[b].idxs) < len(groups[b-1].idxs); b-- {
+			groups[b], groups[b-1] = groups[b-1], groups[b]
+		}
+	}
+	for gi, g := range groups {
+		if gi == len(groups)-1 {
+			return load(&p.Arr[g.rep])
+		}
+		member := st.False
+		// runs of consecutive indices
+		for k := 0; k < len(g.idxs); {
+			j := k
+			for j+1 < len(g.idxs) && g.idxs[j+1] == g.idxs[j]+1 {
+				j++
+			}
+			lo, hi := g.idxs[k], g.idxs[j]
+			var c *term.T
+			if lo == hi {
+				c = st.Eq(p.Idx, st.BVC(uint64(lo), 64))
+			} else {
+				c = st.And(st.Cmp(term.OULe, st.BVC(uint64(lo), 64), p.Idx), st.Cmp(term.OULe, p.Idx, st.BVC(uint64(hi), 64)))
+			}
+			member = st.Or(member, c)
+			k = j + 1
+		}
+		if in.branch(member) {
+			return load(&p.Arr[g.rep])
+		}
+	}
+	panic("unreachable")
+}
 
 // ---- conversions ----
 
